@@ -368,6 +368,11 @@ func runRun(m map[string]string) string {
 		}
 		obs = strings.TrimSuffix(obs, " TMO-SHAPE")
 	}
+	// dflt=1: nothing but the library DEFAULT of tls-handshake-timeout (1 s) ends the scripted stall; a run that needs
+	// more than 5 s was not ended by it (the target itself gives up after 8 s)
+	if d := time.Since(t0); m["dflt"] == "1" && d > 5*time.Second && !strings.HasPrefix(obs, "res=panic") {
+		return fmt.Sprintf("res=hang n=0 s= (the default tls-handshake-timeout did not end a stalled handshake: the run took %d s)", int(d.Seconds()))
+	}
 	if d := time.Since(t0); d > slowRun && !strings.HasPrefix(obs, "res=hang") && !strings.HasPrefix(obs, "res=panic") {
 		return fmt.Sprintf("INCONCLUSIVE machine too busy: the run took %d s", int(d.Seconds()))
 	}
@@ -608,7 +613,8 @@ func run(input string) string {
 	case "idx":
 		return runIdx(m)
 	case "run":
-		return runRun(m)
+		// in a child process (child.go): a crash of the whole process is an observation of THIS case
+		return runViaChild(input)
 	}
 	return "bad-input"
 }
@@ -1309,6 +1315,10 @@ func workers() int {
 }
 
 func main() {
+	if os.Getenv("C19_CHILD") == "1" {
+		childMain()
+		return
+	}
 	drv.Main(&drv.Prop{
 		ID:      "C19",
 		Gen:     gen,
